@@ -30,7 +30,7 @@ def retryTx (tx : String) : Option (Outcome (List (Outcome M))) :=
   if tx = "E" then some .err else ((items tx ",").mapM parseClass).map Outcome.ok
 
 def retryBlock (b : String) : Option (Outcome (List (Outcome M))) :=
-  if b = "T" ∨ b = "B" then some .err else ((items b ",").mapM parseClass).map Outcome.ok
+  if b = "T" ∨ b = "B" ∨ b = "R" then some .err else ((items b ",").mapM parseClass).map Outcome.ok
 
 def exOf (m : M) : Outcome Bool :=
   match m.2.2 with
@@ -105,9 +105,81 @@ def verdictH (classes : String) (impl : String) (model : Option (List (List M)))
 
 def sizeTag (n : Nat) : String := toString (min n 4)
 
-def handle1 (op : String) (impl : String) : Option Verdict :=
+/-! The classes of the single deposits are an ARGUMENT of the loop ops (`<op> <items> <classes>`): they come from a separate
+    `classify` run (own child process) and the loop under test cannot influence them. The legacy one-argument form carries them
+    in front of the result (`<classes>|<result>`). -/
+
+/-- class of one EVM item recomputed from its bytes with the C01 handler models, where those apply: `none` = the model cannot
+    predict it (raw logs; a model panic means an out-of-range slice, which inside a log — spare capacity — may not panic) -/
+def evmItemClass (it : String) : Option String :=
+  match it.splitOn ":" with
+  | "d" :: kind :: dst :: nonce :: cd :: resp :: st => do
+    let cd ← Sygma.fromHex cd
+    let resp ← Sygma.fromHex resp
+    let d ← dst.toNat?
+    let n ← nonce.toNat?
+    let id : Sygma.C01.Ident := ⟨1, d, n, []⟩
+    let o ← match kind with
+      | "1" => some (Sygma.C01.erc20Deposit id cd resp)
+      | "2" => some (Sygma.C01.erc721Deposit id cd)
+      | "3" => some (Sygma.C01.erc1155Deposit id cd)
+      | "4" => some (Sygma.C01.genericDeposit id cd)
+      | _ => some .err                                  -- no handler registered for the resource
+    match o with
+    | .ok _ =>
+      let flag := match st with
+        | ["e"] => ".e" | ["x"] => ".x" | _ => ""
+      some s!"ok.{d}.{n}{flag}"
+    | .err => some "err"
+    | .panic => none
+  | ["o"] => some "skip"
+  | _ => none
+
+/-- class of one Substrate item recomputed with the C01 model (the harness hands the handler slices with cap = len: exact) -/
+def subItemClass (it : String) : Option String :=
+  match it.splitOn ":" with
+  | ["d", dst, nonce, cd, tt] => do
+    let cd ← Sygma.fromHex cd
+    let d ← dst.toNat?
+    let n ← nonce.toNat?
+    let tt ← tt.toNat?
+    match Sygma.C01.subDeposit ⟨1, d, n, []⟩ cd tt with
+    | .ok _ => some s!"ok.{d}.{n}"
+    | .err => some "err"
+    | .panic => some "panic"
+  | ["b"] => some "err"
+  | ["o"] => some "skip"
+  | _ => none
+
+/-- `classify <op> <items>`: the observed classes, cross-checked against the C01 handler models item by item -/
+def handleClassify (op items impl : String) : Verdict :=
+  let groups := (Sygma.Drv.items items "/").map fun g => Sygma.Drv.items g ";"
+  let got := (Sygma.Drv.items impl "/").map fun g => Sygma.Drv.items g ","
+  let pred : String → Option String := match op with
+    | "evm" | "hevm" | "route" | "retry1" => evmItemClass
+    | "sub" | "hsub" | "subretry" => subItemClass
+    | _ => fun _ => none
+  let structural (g : List String) : Bool := g == ["E"] || g == ["T"] || g == ["B"] || g == ["R"]
+  let consistent := groups.length == got.length && (groups.zip got).all fun (g, c) =>
+    if structural g then c == g
+    else g.length == c.length && (g.zip c).all fun (it, cl) =>
+      match pred it with
+      | some p => p == cl
+      | none => true
+  let known := (groups.flatten.filter fun it => (pred it).isSome).length
+  ⟨if consistent then impl else "classes-disagree-with-the-C01-handler-models", true,
+   s!"classify:{op}:predicted={sizeTag known}:observed-only={sizeTag (groups.flatten.length - known)}"⟩
+
+def handle1 (op : String) (args : List String) (impl0 : String) : Option Verdict :=
+  -- two-argument form: classes are args[1], the implementation's answer is the result alone
+  let impl := match args with
+    | [_, cls] => cls ++ "|" ++ impl0
+    | _ => impl0
+  let strip (v : Verdict) : Verdict := match args with
+    | [_, cls] => { v with model := (v.model.drop (cls.length + 1)).toString }
+    | _ => v
   let classes := (impl.splitOn "|").headD ""
-  match op with
+  (fun (r : Option Verdict) => r.map strip) <| match op with
   | "evm" | "sub" => some <| Id.run do
     let some cs := (items classes ",").mapM parseClass | return bad
     let good := cs.filterMap (okPart id)
@@ -153,21 +225,27 @@ def handle1 (op : String) (impl : String) : Option Verdict :=
   | "subretry" => some <| Id.run do
     let blocks := items classes "/"
     let some evs := blocks.mapM retryBlock | return bad
-    let aborted := blocks.any (· = "B")
+    -- T: retried block not final yet (skipped); B: undecodable retry event (skipped); R: the node cannot serve the block (abort)
+    let aborted := blocks.any (· = "R")
     let good := (evs.flatMap (fetched id)).filterMap (okPart id)
     let total := (evs.flatMap (fetched id)).length
-    let model := subRetry (·.1) (fun e : (Outcome (List (Outcome M))) × Bool => e.1) (·.2) id (evs.zip (blocks.map (· = "B")))
+    let model := subRetry (·.1) (fun e : (Outcome (List (Outcome M))) × Bool => e.1) (·.2) id (evs.zip (blocks.map (· = "R")))
     return verdictH classes impl (model.map batches) good
       s!"subretry:blocks={sizeTag evs.length}:abort={aborted}:n={sizeTag total}:bad={sizeTag (total - good.length)}:good={sizeTag good.length}"
   | _ => none
 
 /-- `iso <op> <items>`: the same op in a child process. The skeleton models are total and never crash, so a dead or
     unresponsive child (`crash` / `hang`) is a violation of "terminates without crashing the process". -/
+def handleInner (op : String) (args : List String) (impl : String) : Option Verdict :=
+  match op, args with
+  | "classify", [inner, its] => some (handleClassify inner its impl)
+  | _, _ => handle1 op args impl
+
 def handle (op : String) (args : List String) (impl : String) : Option Verdict :=
   match op, args with
-  | "iso", inner :: _ =>
+  | "iso", inner :: rest =>
     if impl = "crash" ∨ impl = "hang" then some ⟨"survives", false, s!"iso:{inner}:dead"⟩
-    else (handle1 inner impl).map fun v => { v with tag := "iso:" ++ v.tag }
-  | _, _ => handle1 op impl
+    else (handleInner inner rest impl).map fun v => { v with tag := "iso:" ++ v.tag }
+  | _, _ => handleInner op args impl
 
 end Sygma.Drv.C06
